@@ -579,8 +579,9 @@ pub fn build_cases(tier: Tier, seed: u64, batch: u64) -> Vec<PushCase> {
         }
     };
     // every single behaviour, then "failure then accept", then pairs
-    for b in ALPHABET {
-        cases.push(PushCase { script: vec![b.clone()], n_msgs: 1 + (next() % 2) as u8, kind: 0, delete_after_ms: 0, payload: payload(next()), script_odd: None, dl: 0 });
+    for (bi, b) in ALPHABET.iter().enumerate() {
+        // every payload shape is pushed in every batch (the shapes cycle over the behaviours)
+        cases.push(PushCase { script: vec![b.clone()], n_msgs: 1 + (next() % 2) as u8, kind: 0, delete_after_ms: 0, payload: payload(bi as u64), script_odd: None, dl: 0 });
     }
     let all_pairs: Vec<(Beh, Beh)> = ALPHABET.iter().flat_map(|a| ALPHABET.iter().map(move |b| (a.clone(), b.clone()))).collect();
     let want = match tier {
